@@ -34,6 +34,11 @@ type leafAddr struct {
 type StructV struct {
 	Typ types.Type // named or struct type
 	F   []Value
+	// Src, when set, is the object this value was loaded from as a whole, with the versions the
+	// model-field arrays had at that moment: storing the value into another object copies the
+	// object's model fields too (see Exec.store and mfAlias).
+	Src     Term
+	SrcSnap map[string]Term
 }
 
 type SliceV struct {
